@@ -6,6 +6,7 @@ package snapshots
 
 import (
 	"iter"
+	"path"
 
 	"reduction.dev/reduction/storage/locations"
 )
@@ -189,3 +190,90 @@ func forall(lo, hi int, f func(int) bool) bool {
 //@   ensures result1 == nil ==> exists(0, len(s.state.completedSnapshots), func(k int) bool { return s.state.completedSnapshots[k].id >= snap.id })
 //@   loop 0:
 //@     invariant superseded == exists(0, idx_, func(j int) bool { return s.state.completedSnapshots[j].id > snap.id })
+
+// ---- savepoint artifacts (C14). Ghost model of a storage location for this purpose: the
+// log of successful Copy calls. A savepoint is self-contained when every file the restore
+// will ask for was copied into it, under the path the restore computes.
+type ghostCopy struct{ src, dst string }
+
+//@ type ext:locations.StorageLocation
+//@   ghostfield copies []ghostCopy
+
+//@ func ext:locations.StorageLocation.Copy
+//@   trusted
+//@   modifies self.copies
+//@   ensures result == nil ==> len(self.copies) == old(len(self.copies)) + 1 && self.copies[old(len(self.copies))].src == arg0 && self.copies[old(len(self.copies))].dst == arg1
+//@   ensures result != nil ==> len(self.copies) == old(len(self.copies))
+//@   ensures forall(0, old(len(self.copies)), func(i int) bool { return self.copies[i] == old(self.copies)[i] })
+
+//@ func ext:locations.StorageLocation.Read
+//@   trusted
+//@   modifies nothing
+
+// pathSegment: deterministic name of a checkpoint id (base64 of the reversed id).
+//@ func pathSegment
+//@   property C14 C13
+//@   trusted
+//@   pure
+//@   modifies nothing
+
+//@ func parseDKVURI
+//@   property C14
+//@   inline
+
+// filepath.Dir undoes the last Join element of the savepoint file name (the directory part is
+// itself a Join result with a non-empty last element, hence clean). Assumed.
+//@ axiom dirOfSavepointFile
+//@   forall a string, b string
+//@   ensures filepath.Dir(filepath.Join(a, b, "job.savepoint")) == filepath.Join(a, b)
+
+// spFile: where a DKV file lives inside the savepoint directory dir.
+//@ define spFile(dir, file) := filepath.Join(dir, "dkv", ghostDirOf(file), ghostBaseOf(file))
+//@ define copied(fs, s, d) := exists(0, len(fs.copies), len(fs.copies)-1, func(ci_ int) bool { return fs.copies[ci_].src == s && fs.copies[ci_].dst == d })
+func ghostDirOf(uri string) string  { d, _ := path.Split(uri); return d }
+func ghostBaseOf(uri string) string { _, b := path.Split(uri); return b }
+
+// CreateSavepointArtifact: on success the job checkpoint file is copied to
+// <savepoints>/<segment(id)>/job.savepoint (the returned URI) and, for every operator checkpoint,
+// the operator's checkpoints file and every file recovery.ListFiles reports for it are copied to
+// spFile(<savepoints>/<segment(id)>, file); any failing step makes the whole call fail.
+//@ func CreateSavepointArtifact
+//@   property C14
+//@   exclusive
+//@   requires snapshot != nil && forall(0, len(snapshot.operatorCheckpoints), func(o int) bool { return snapshot.operatorCheckpoints[o] != nil })
+//@   modifies locations.StorageLocation.copies
+//@   ensures result1 == nil ==> result0 == filepath.Join(savepointsPath, pathSegment(snapshot.id), "job.savepoint") && copied(fs, checkpointURI, result0)
+//@   ensures result1 == nil ==> forall(0, len(snapshot.operatorCheckpoints), func(o int) bool {
+//@           return copied(fs, snapshot.operatorCheckpoints[o].DkvFileUri, spFile(filepath.Join(savepointsPath, pathSegment(snapshot.id)), snapshot.operatorCheckpoints[o].DkvFileUri)) })
+//@   loop 0:
+//@     invariant forall(0, idx_, func(o int) bool { return copied(fs, snapshot.operatorCheckpoints[o].DkvFileUri, spFile(filepath.Join(savepointsPath, pathSegment(snapshot.id)), snapshot.operatorCheckpoints[o].DkvFileUri)) })
+//@   loop 1:
+//@     invariant forall(0, idx0_, func(o int) bool { return copied(fs, snapshot.operatorCheckpoints[o].DkvFileUri, spFile(filepath.Join(savepointsPath, pathSegment(snapshot.id)), snapshot.operatorCheckpoints[o].DkvFileUri)) })
+//@     invariant len(files) >= 1 && files[len(files)-1] == opCkpt.DkvFileUri && same(opCkpt, snapshot.operatorCheckpoints[idx0_])
+//@     invariant forall(0, idx_, len(files)-1, func(j int) bool { return copied(fs, files[j], spFile(filepath.Join(savepointsPath, pathSegment(snapshot.id)), files[j])) })
+//@     exit copied(fs, opCkpt.DkvFileUri, spFile(filepath.Join(savepointsPath, pathSegment(snapshot.id)), opCkpt.DkvFileUri))
+
+// RestoreCheckpointFromSavepointArtifact: for every operator checkpoint of the job checkpoint,
+// the operator's checkpoints file and every file ListFiles reports for the COPY of that file
+// inside the savepoint are copied back from spFile(dir(savepointURI), file) to their own URI.
+//@ func RestoreCheckpointFromSavepointArtifact
+//@   property C14
+//@   requires jobCheckpoint != nil && forall(0, len(jobCheckpoint.OperatorCheckpoints), func(o int) bool { return jobCheckpoint.OperatorCheckpoints[o] != nil })
+//@   modifies locations.StorageLocation.copies
+//@   ensures result == nil ==> forall(0, len(jobCheckpoint.OperatorCheckpoints), func(o int) bool {
+//@           return copied(fs, spFile(filepath.Dir(savepointURI), jobCheckpoint.OperatorCheckpoints[o].DkvFileUri), jobCheckpoint.OperatorCheckpoints[o].DkvFileUri) })
+//@   atcall Read: arg0 == spFile(filepath.Dir(savepointURI), opCkpt.DkvFileUri)
+//@   loop 0:
+//@     invariant forall(0, idx_, func(o int) bool { return copied(fs, spFile(filepath.Dir(savepointURI), jobCheckpoint.OperatorCheckpoints[o].DkvFileUri), jobCheckpoint.OperatorCheckpoints[o].DkvFileUri) })
+//@   loop 1:
+//@     invariant forall(0, idx0_, func(o int) bool { return copied(fs, spFile(filepath.Dir(savepointURI), jobCheckpoint.OperatorCheckpoints[o].DkvFileUri), jobCheckpoint.OperatorCheckpoints[o].DkvFileUri) })
+//@     invariant len(files) >= 1 && files[len(files)-1] == opCkpt.DkvFileUri && same(opCkpt, jobCheckpoint.OperatorCheckpoints[idx0_])
+//@     invariant forall(0, idx_, len(files)-1, func(j int) bool { return copied(fs, spFile(filepath.Dir(savepointURI), files[j]), files[j]) })
+//@     exit copied(fs, spFile(filepath.Dir(savepointURI), opCkpt.DkvFileUri), opCkpt.DkvFileUri)
+
+// The savepoint directory the restore derives from the savepoint URI is the one the artifact
+// was written to: both sides name a file's copy identically.
+//@ lemma savepointPathsAgree
+//@   property C14
+//@   forall savepointsPath string, seg string, file string
+//@   ensures spFile(filepath.Dir(filepath.Join(savepointsPath, seg, "job.savepoint")), file) == spFile(filepath.Join(savepointsPath, seg), file)
